@@ -139,6 +139,20 @@ func checkC20(c *Ctx) {
 	c20EIRPEncode(c, ev2, tbl)
 	c20DivMul(c)
 	c20GPS(c, spec.Leap, spec.HMS)
+	// the conversions, the airtime functions and the EIRP lookups are functions of their arguments: no result cache, no
+	// table that is filled while they run (tables built once from immutable data under sync.Once are initialisation)
+	for _, t := range []struct{ rel, name string }{
+		{"airtime", "CalculateLoRaAirtime"}, {"airtime", "CalculateLoRaSymbolDuration"}, {"airtime", "CalculateLoRaPreambleDuration"},
+		{"airtime", "CalculateLoRaPayloadSymbolNumber"}, {"gps", "NewTimeFromTimeSinceGPSEpoch"}, {"gps", "Time.TimeSinceGPSEpoch"},
+		{"", "GetTXParamSetupEIRPIndex"}, {"", "GetTXParamSetupEIRP"},
+	} {
+		fn := c.Prog.SSAFunc(t.rel, t.name)
+		if fn == nil {
+			r.Unknown("R8.stateless", t.rel+"."+t.name, "", "anchor function exists", "missing")
+			continue
+		}
+		ruleStatelessGlobals(c, "R8.stateless", fn)
+	}
 }
 
 // countedLoopRange recognises i := a; i < b | i <= b | i > b | i >= b; i++ | i-- with constant or len(table)±k bounds.
